@@ -262,6 +262,8 @@ def cmd_check(prop, tier, verif_seed, runs=None, workers=None):
     bad = [r for r in results if r.get('violation')]
     known_hits = {}
     seen_sigs = set()
+    verified_sigs = set()
+    unreproduced = {}
     budget = 12
     for r in bad:
         case = dict(r['case'], property=prop, verif_seed=verif_seed, index=r['i'])
@@ -301,8 +303,20 @@ def cmd_check(prop, tier, verif_seed, runs=None, workers=None):
             viol_lines.append(f'VIOLATION property={prop} replay={path}')
             print(viol_lines[-1])
             print('  ' + json.dumps(case['violation'], default=repr, ensure_ascii=True)[:1500])
+            verified_sigs.add(sigkey)
         else:
-            print(f'HARNESS ERROR: violation in run {r["i"]} did not reproduce from its replay file {path}\n{out[-1500:]}')
+            # not reproducible on its own: when the library leaks state between the runs of one worker process, a run
+            # can fail because of what an EARLIER run did.  Another run of the same class may carry the cause in its own
+            # history, so the class stays open for the next candidates; it is a harness error only if none reproduces.
+            seen_sigs.discard(sigkey)
+            unreproduced.setdefault(sigkey, []).append((r['i'], path, out))
+    for sigkey, lst in unreproduced.items():
+        if sigkey in verified_sigs:
+            print(f'  note: {len(lst)} other run(s) of this class failed only in the worker process that had executed earlier runs '
+                  f'(state leaked between runs), e.g. run {lst[0][0]}')
+        else:
+            i_, path_, out_ = lst[0]
+            print(f'HARNESS ERROR: violation in run {i_} did not reproduce from its replay file {path_}\n{out_[-1500:]}')
             exit_code = 2
 
     # 4. determinism sample
